@@ -10,6 +10,22 @@ from .common import FIELD, MESH, REGION
 from .c01 import each, _single_return
 
 FLOOR = 34
+ANCHORS = [
+    'field.Field._as_array',
+    'field.Field._as_array[str]',
+    'field.Field._as_array[Complex|Iterable]',
+    'field.Field._as_array[Callable]',
+    'field.Field._as_array[dict]',
+    'field.Field._as_array[Field]',
+    'field.Field.array.setter',
+    'field.Field.update_field_values',
+    'field.Field.__call__',
+    'field.Field.__getattr__',
+    'field.Field.__iter__',
+    'field.Field.line',
+    'mesh.Mesh.line',
+    'line.Line.__init__',
+]   # functions whose code the property is anchored in (mutation analysis, evidence)
 
 
 def run(chk):
